@@ -31,6 +31,24 @@ LD = np.longdouble
 K_LD = LD(10 ** 7) / LD(2410) * LD(10) ** 12
 
 
+class _Inf:
+    """Reference frequency at infinity (1/ref = 0)."""
+    def __le__(self, other):
+        return False
+
+    def __float__(self):
+        return float("inf")
+
+
+INF = _Inf()
+
+
+def ref_hz(q):
+    """Exact reference frequency in Hz, or INF for an infinite one."""
+    v = float(q.to_value(u.Hz))
+    return INF if v == float("inf") else F(v)
+
+
 def oracle_chirp(dmv, fc, ref, rate, N, check_ctx=None):
     """H (complex128, shape N) and per-bin tolerance for one channel, from exact inputs (Fractions)."""
     def ld(fr):
@@ -40,19 +58,25 @@ def oracle_chirp(dmv, fc, ref, rate, N, check_ctx=None):
         return LD(hi) + LD(float(fr - F(hi)))
 
     k = refdft.fftfreq_bins(N).astype(LD)
-    fc_l, ref_l, rate_l, dm_l = ld(fc), ld(ref), ld(rate), ld(dmv)
+    fc_l, rate_l, dm_l = ld(fc), ld(rate), ld(dmv)
     off = k * rate_l / LD(N)
     f = fc_l + off
-    delta = ld(F(fc) - F(ref)) + off        # f - ref: the exact rational difference first
-    phi = K_LD * dm_l * delta * delta / (f * ref_l * ref_l)     # = K DM f (1/ref - 1/f)^2
+    if ref is INF:
+        phi = K_LD * dm_l / f                   # K DM f (0 - 1/f)^2
+        inv_ref = 0.0
+    else:
+        ref_l = ld(ref)
+        delta = ld(F(fc) - F(ref)) + off        # f - ref: the exact rational difference first
+        phi = K_LD * dm_l * delta * delta / (f * ref_l * ref_l)     # = K DM f (1/ref - 1/f)^2
+        inv_ref = 1 / float(ref)
     frac = phi - np.floor(phi)
     H = (np.cos(2 * refdft._PI_LD * frac) - 1j * np.sin(2 * refdft._PI_LD * frac)).astype(np.complex128)
     phi_f = np.abs(phi).astype(np.float64)
     f_f = f.astype(np.float64)
-    inv = np.abs(1 / float(ref) - 1 / f_f)
+    inv = np.abs(inv_ref - 1 / f_f)
     kd = float(K_LD) * abs(float(dmv))
-    delay = kd * np.abs(1 / f_f ** 2 - 1 / float(ref) ** 2)
-    tol = (2.0 ** -22 + 2 * np.pi * 2.0 ** -52 * (8 * phi_f + 4 * kd * f_f * inv * (1 / float(ref) + 1 / f_f))
+    delay = kd * np.abs(1 / f_f ** 2 - inv_ref ** 2)
+    tol = (2.0 ** -22 + 2 * np.pi * 2.0 ** -52 * (8 * phi_f + 4 * kd * f_f * inv * (inv_ref + 1 / f_f))
            + 2 * np.pi * delay * (2 * np.spacing(f_f) + float(rate) * 2.0 ** -51))
     # cross-check the longdouble phase with exact rational arithmetic on a few bins
     for j in sorted({0, 1, N // 2, N - 1, N // 3}):
@@ -60,7 +84,7 @@ def oracle_chirp(dmv, fc, ref, rate, N, check_ctx=None):
             continue
         kk = int(refdft.fftfreq_bins(N)[j])
         fe = fc + F(kk) * rate / N
-        pe = oracles.chirp_phase_cycles(dmv, fe, ref)
+        pe = oracles.K_HZ * dmv / fe if ref is INF else oracles.chirp_phase_cycles(dmv, fe, ref)
         fe_frac = pe - math.floor(pe)
         d = abs(float(fe_frac) - float(frac[j]))
         d = min(d, 1 - d)
@@ -122,7 +146,7 @@ class ChirpMonitor:
             a.update(kwargs)
             N = int(a["N"])
             dt = F(float(a["dt"].to_value(u.s)))
-            fc, ref = exact.hz(a["center_freq"]), exact.hz(a["ref_freq"])
+            fc, ref = exact.hz(a["center_freq"]), ref_hz(a["ref_freq"])
             use_dask = bool(a.get("use_dask", False))
             if use_dask != isinstance(res, da.Array):
                 ctx.violation("chirp", f"chirp_function(use_dask={use_dask}) returned {type(res).__name__}", None, {"what": "container"})
@@ -133,7 +157,7 @@ class ChirpMonitor:
         elif m is not None:
             z = args[1]
             ref_q = kwargs.get("ref_freq")
-            ref = m["fc"] if ref_q is None else exact.hz(ref_q)
+            ref = m["fc"] if ref_q is None else ref_hz(ref_q)
             N, nch = m["len"], m["nchan"]
             want_shape = (N, nch) + (1,) * (len(m["shape"]) - 2)
             if tuple(res.shape) != want_shape:
@@ -174,7 +198,7 @@ class CoherentMonitor:
             return
         z, dm = args[0], args[1]
         ref_q = kwargs.get("ref_freq")
-        ref = m["fc"] if ref_q is None else exact.hz(ref_q)
+        ref = m["fc"] if ref_q is None else ref_hz(ref_q)
         N, nch = m["len"], m["nchan"]
         if m["fmin"] <= 0 or ref <= 0 or N == 0:
             return
@@ -197,7 +221,7 @@ class CoherentMonitor:
             for edge in (z.min_freq, z.max_freq):
                 if ref_q.unit == edge.unit and ref_q.value == edge.value:
                     zero_exact = True
-        start, stop, amb, delays = oracles.coherent_crop(dmv, m["fmax"], m["fmin"], ref, m["rate"], N, zero_exact)
+        start, stop, amb, delays = oracles.coherent_crop(dmv, m["fmax"], m["fmin"], None if ref is INF else ref, m["rate"], N, zero_exact)
         if amb:
             ctx.count("ambiguous[integer_edge_delay]")
             return
@@ -266,7 +290,7 @@ def wl_coherent(ctx, idx, rng):
     N = Ns[idx % len(Ns)]
     nchan = int(rng.integers(1, 6)) if N <= 4096 else int(rng.integers(1, 3))
     align = ["bottom", "center", "top"][(idx // len(Ns)) % 3]
-    rk = (idx // (len(Ns) * 3)) % 5
+    rk = (idx // (len(Ns) * 3)) % 6
     clsname = gen.pick(rng, ["BasebandSignal", "BasebandSignal", "DualPolarizationSignal"])
     extra = gen.pick(rng, [(), (), (2,), (1, 2)]) if N <= 1000 else ()
     dtype = gen.pick(rng, [np.complex64, np.complex128])
@@ -285,8 +309,14 @@ def wl_coherent(ctx, idx, rng):
     dmval = float(target / per_dm) * gen.pick(rng, [1, 1, -1])
     dm = make_dm(rng, dmval)
     ref = [None, sig.min_freq, sig.max_freq, sig.center_freq + sig.chan_bw * float(rng.uniform(-nchan / 2, nchan / 2)),
-           sig.center_freq * float(gen.pick(rng, [1.3, 0.7]))][rk]
-    if ref is not None and rng.random() < 0.5:
+           sig.center_freq * float(gen.pick(rng, [1.3, 0.7])), np.inf * gen.pick(rng, [u.MHz, u.Hz, u.GHz])][rk]
+    if rk == 5:
+        # delays relative to infinite frequency are absolute: choose the DM so that the delay at the bottom of the band is a
+        # fraction of N samples (otherwise everything is cropped away)
+        per_dm_inf = 4149.377593360996e12 * (fchz - bw / 2) ** -2 * srhz + 1e-300
+        dmval = float(target / per_dm_inf) * gen.pick(rng, [1, 1, -1])
+        dm = make_dm(rng, dmval)
+    if ref is not None and rk != 5 and rng.random() < 0.5:
         ref = ref.to(gen.pick(rng, [u.Hz, u.MHz, u.GHz]))
     kw = {} if ref is None else {"ref_freq": ref}
     desc.update(N=N, dm=str(dm), ref=None if ref is None else str(ref), ref_kind=rk, band_delay_samples=float(target))
